@@ -44,7 +44,7 @@ fn leaves() -> Vec<Expr> {
 /// names that are not a plain identifier, strings holding a quote, a line break or a tab
 fn odd_leaves() -> Vec<Expr> {
     let mut v: Vec<Expr> = ["a b", "", "degC", "to", "per", "mod", "in", "and", "or", "xor", "celsius", "℃", "degF", "°F", "fahrenheit", "℉", "degRé", "°Ré", "degRe", "°Re", "réaumur", "reaumur",
-            "degRø", "°Rø", "degRo", "°Ro", "rømer", "romer", "degDe", "°De", "delisle", "degN", "°N", "degnewton", "of", "now", "Å", "a ", " a", "\\u41", "\"a\"", "a\t", " ", "  b  ", "\\", "\\u", "a\"", ">", ">x", "->", "<<", "*", "**", "µ", "a_b", "a$", "$a", "_", "é", "it\"s", "a\\b", "1x", "x-y", "2", "-", "a'b", " ", "x\ny", "0x1f", "°C", "m^2", "(", "a,b", "#"]
+            "degRø", "°Rø", "degRo", "°Ro", "rømer", "romer", "degDe", "°De", "delisle", "degN", "°N", "degnewton", "of", "now", "Å", "international", "int", "british", "survey", "irish", "aust", "australian", "roman", "egyptian", "greek", "olympic", "UKB", "surveyfoot", "intfoot", "a ", " a", "\\u41", "\"a\"", "a\t", " ", "  b  ", "\\", "\\u", "a\"", ">", ">x", "->", "<<", "*", "**", "µ", "a_b", "a$", "$a", "_", "é", "it\"s", "a\\b", "1x", "x-y", "2", "-", "a'b", " ", "x\ny", "0x1f", "°C", "m^2", "(", "a,b", "#"]
         .iter().map(|n| Expr::new_unit(n.to_string())).collect();
     for q in ["it's", "a\nb", "\t", "", "'", "a\"b", "''", "\n'"] { v.push(Expr::Quote { string: q.to_string() }); }
     v
